@@ -44,9 +44,10 @@ def gen_case(rng):
 
     def ref(i):
         if n == 1:
-            return dict(t="none") if rng.random() < 0.9 else dict(t="ref", n=0)
+            return dict(t="none")
         if rng.random() < back:
-            return dict(t="ref", n=rng.randrange(n))
+            # never the root: since 0cc66af a task that has not been submitted is refused as a value
+            return dict(t="ref", n=rng.randrange(1, n))
         fwd = list(range(i + 1, n))
         return dict(t="ref", n=rng.choice(fwd)) if fwd else dict(t="none")
 
